@@ -179,6 +179,7 @@ func (c *ewCloud) api(e *ewENI) *aliyunClient.NetworkInterface {
 func (c *ewCloud) DescribeVSwitchByID(ctx context.Context, id string) (*vpc.VSwitch, error) {
 	if a := ewActorOf(ctx); a != nil && a.auxFault["vsw"] {
 		delete(a.auxFault, "vsw")
+		c.w.noteFault(a)
 		return nil, errors.New("injected: describe vswitch")
 	}
 	return &vpc.VSwitch{VSwitchId: id, ZoneId: "zone-a", AvailableIpAddressCount: 1000, CidrBlock: "10.9.0.0/16", Ipv6CidrBlock: "fd09::/64"}, nil
@@ -474,6 +475,7 @@ func (c *ewClient) Get(ctx context.Context, key client.ObjectKey, obj client.Obj
 		a, ev, child := w.classify(ctx, "get", "pod")
 		if ev == "" {
 			if a != nil && a.auxFault["pod"] {
+				w.noteFault(a)
 				return apierrors.NewInternalError(errors.New("injected"))
 			}
 			return c.Client.Get(ctx, key, obj, opts...)
@@ -487,6 +489,7 @@ func (c *ewClient) Get(ctx context.Context, key client.ObjectKey, obj client.Obj
 		if ev == "" {
 			if a != nil && a.auxFault["node"] {
 				delete(a.auxFault, "node")
+				w.noteFault(a)
 				return apierrors.NewInternalError(errors.New("injected"))
 			}
 			return c.Client.Get(ctx, key, obj, opts...)
@@ -982,6 +985,8 @@ type ewWorld struct {
 	lRefs    map[int]bool
 
 	profile  int
+	faultMu  sync.Mutex
+	faulted  map[string]bool
 	leakedOK map[int]bool // interfaces a faulted roll-back was allowed to leave behind
 	anomalies []string
 }
@@ -1008,7 +1013,7 @@ func newEWorld(c *Ctx, r *Rng) *ewWorld {
 	w := &ewWorld{c: c, r: r, sched: make(chan ewMsg), spec: map[string]*ewSpec{},
 		ver: map[string]int{}, nextVer: map[string]int{}, nextUID: map[string]int{}, lsV: map[string]int64{}, obsV: map[string]int64{},
 		orig: map[string][]networkv1beta1.Allocation{}, live: map[string]*ewActor{}, gOpen: map[string]bool{}, gSnap: map[string]*networkv1beta1.PodENI{},
-		lOpen: map[string]bool{}, lRefs: map[int]bool{}, leakedOK: map[int]bool{}}
+		lOpen: map[string]bool{}, lRefs: map[int]bool{}, leakedOK: map[int]bool{}, faulted: map[string]bool{}}
 	b := fake.NewClientBuilder().WithScheme(terwayTypes.Scheme).WithStatusSubresource(&networkv1beta1.PodENI{})
 	for i, n := range ewNodes {
 		node := &corev1.Node{ObjectMeta: metav1.ObjectMeta{Name: n.name, Labels: map[string]string{
@@ -1362,6 +1367,9 @@ func (w *ewWorld) gate(a *ewActor, ev string, child bool) (fault bool) {
 		idx := int(atomic.AddInt32(&a.childIdx, 1) - 1)
 		fault = a.dir.childFault[idx]
 		if a.dir.pauseChild != idx {
+			if fault {
+				w.noteFault(a)
+			}
 			return fault
 		}
 		a.parkedKid = true
@@ -1369,6 +1377,9 @@ func (w *ewWorld) gate(a *ewActor, ev string, child bool) (fault bool) {
 		w.sched <- ewMsg{a: a}
 		d := <-a.resume
 		a.parkedKid = false
+		if fault || d.fault {
+			w.noteFault(a)
+		}
 		return fault || d.fault
 	}
 	a.parkedAt = ev
@@ -1376,7 +1387,22 @@ func (w *ewWorld) gate(a *ewActor, ev string, child bool) (fault bool) {
 	d := <-a.resume
 	a.dir = d
 	atomic.StoreInt32(&a.childIdx, 0)
+	if d.fault {
+		w.noteFault(a)
+	}
 	return d.fault
+}
+
+// noteFault: an API / cloud error was injected into a call of this actor (C11's liveness clause is only judged
+// for names whose history has none: C11 does not quantify over faults).
+func (w *ewWorld) noteFault(a *ewActor) {
+	w.faultMu.Lock()
+	if a.name != "" {
+		w.faulted[a.name] = true
+	} else {
+		w.faulted["*"] = true
+	}
+	w.faultMu.Unlock()
 }
 
 // ---------- pod reads ----------
